@@ -27,7 +27,10 @@ for d in sorted(glob.glob(os.path.join(ROOT, "seeded", "C*-*")), key=lambda p: (
     meta = json.load(open(mp)) if os.path.exists(mp) else {}
     def run(base=None):
         cmd = [os.path.join(ROOT, "tools", "seedtest.sh"), pid, os.path.join(d, "patch.diff")] + ([base] if base else [])
-        return subprocess.run(cmd, capture_output=True, text=True).stdout
+        env = dict(os.environ)
+        if base:
+            env["VERIF_DEV"] = "1"   # an older /repo commit may lack hooks other properties' harness files need: build this property only
+        return subprocess.run(cmd, capture_output=True, text=True, env=env).stdout
     out = run()
     used_base = "HEAD"
     if "PATCH-DOES-NOT-APPLY" in out and not meta.get("base"):
